@@ -437,5 +437,5 @@ def case_strategy(draw, max_ops: int = 14, topos=("lan", "lan", "lan2", "routed"
 
 def worker(ctx: Ctx):
     mon.install()
-    n = 300 if ctx.tier == "quick" else 4000
+    n = 200 if ctx.tier == "quick" else 3000
     hyp_run(ctx, case_strategy(14 if ctx.tier == "quick" else 24), run_case, n)
